@@ -272,6 +272,54 @@ Definition dst_quad_to_src (T : qpt -> qpt) (sb : qbbox) (sw sh : Z) (db : qbbox
 Definition in_quadb (q : quad) (i j : Z) : bool :=
   let '(q0, q1, q2, q3) := q in ((q0 <=? i) && (i <? q2) && (q1 <=? j) && (j <? q3))%Z.
 
+(* center_quad_transform / quad_transform: the point at the fraction (fx, fy) of the quad under PIL's quad mapping
+   (bilinear between the four source corners nw, sw, se, ne) *)
+Definition quad_transform (q : quad) (sq : list qpt) (fx fy : Q) : qpt :=
+  let '(q0, q1, q2, q3) := q in
+  match sq with
+  | [nw; sw; se; ne] =>
+    let w := inject_Z (q2 - q0) in let h := inject_Z (q3 - q1) in
+    let As := 1 / w in let At := 1 / h in
+    let x := w * fx - (1 # 2) in let y := h * fy - (1 # 2) in
+    (fst nw + (fst ne - fst nw) * As * x + (fst sw - fst nw) * At * y + (fst se - fst sw - fst ne + fst nw) * As * At * x * y,
+     snd nw + (snd ne - snd nw) * As * x + (snd sw - snd nw) * At * y + (snd se - snd sw - snd ne + snd nw) * As * At * x * y)
+  | _ => (0, 0)
+  end.
+
+(* transform_meshes.is_good: quads narrower or lower than 50 px are accepted unchecked; otherwise the true position
+   (Tinv = src_srs.transform_to(dst_srs, .)) and the quad mapping are compared at the centre of the quad and at the
+   centres of its four quarters; max_err = max_px_err * (d2 - d0) / dw *)
+Definition mesh_check_points : list (Q * Q) :=
+  [(1 # 2, 1 # 2); (1 # 4, 1 # 4); (3 # 4, 1 # 4); (1 # 4, 3 # 4); (3 # 4, 3 # 4)].
+Definition Qmax2 (a b : Q) : Q := if Qle_bool a b then b else a.
+Definition mesh_is_good (Tinv : qpt -> qpt) (sb : qbbox) (sw sh : Z) (db : qbbox) (dw dh : Z) (max_err : Q)
+           (q : quad) (sq : list qpt) : bool :=
+  let '(q0, q1, q2, q3) := q in
+  let w := (q2 - q0)%Z in let h := (q3 - q1)%Z in
+  if ((w <? 50) || (h <? 50))%Z then true
+  else forallb (fun f : Q * Q =>
+                  let xc := inject_Z q0 + inject_Z w * fst f - (1 # 2) in
+                  let yc := inject_Z q1 + inject_Z h * snd f - (1 # 2) in
+                  let dst_w := lin_transf (img_rect dw dh) db (xc, yc) in
+                  let real := Tinv (lin_transf (img_rect sw sh) sb (quad_transform q sq (fst f) (snd f))) in
+                  Qlt_b (Qmax2 (Qabs (fst dst_w - fst real)) (Qabs (snd dst_w - snd real))) max_err)
+               mesh_check_points.
+
+(* add_meshes: accept a quad or divide it; fuel bounds the recursion depth (quads shrink until they are below 50 px) *)
+Fixpoint add_meshes (fuel : nat) (T Tinv : qpt -> qpt) (sb : qbbox) (sw sh : Z) (db : qbbox) (dw dh : Z) (off max_err : Q)
+         (quads : list quad) : list (quad * list qpt) :=
+  match fuel with
+  | O => []
+  | S f =>
+    flat_map (fun q => let sq := dst_quad_to_src T sb sw sh db dw dh off q in
+                       if mesh_is_good Tinv sb sw sh db dw dh max_err q sq then [(q, sq)]
+                       else add_meshes f T Tinv sb sw sh db dw dh off max_err (divide_quad q)) quads
+  end.
+Definition transform_meshes (T Tinv : qpt -> qpt) (sb : qbbox) (sw sh : Z) (db : qbbox) (dw dh : Z) (off max_px_err : Q)
+  : list (quad * list qpt) :=
+  let '(d0, _, d2, _) := db in
+  add_meshes 40 T Tinv sb sw sh db dw dh off (max_px_err * ((d2 - d0) / inject_Z dw)) [(0, 0, dw, dh)%Z].
+
 (* InfoQuery.coord *)
 Definition info_coord (b : qbbox) (w h : Z) (pos : Z * Z) : qpt :=
   lin_transf (img_rect w h) b (inject_Z (fst pos), inject_Z (snd pos)).
@@ -344,6 +392,14 @@ Definition transform_action_close (tol : Q) (a b : transform_action) : bool :=
   | Simple x, Simple y => simple_action_close tol x y
   | _, _ => false
   end.
+Definition mesh_close (tol : Q) (a b : quad * list qpt) : bool :=
+  quad_eqb (fst a) (fst b) &&
+  (fix go (x y : list qpt) : bool :=
+     match x, y with
+     | [], [] => true
+     | p :: x', r :: y' => qpt_close tol p r && go x' y'
+     | _, _ => false
+     end) (snd a) (snd b).
 Definition otile_off_eqb (a b : option (Z * Z * Z) * (Z * Z)) : bool :=
   ocoord_eqb (fst a) (fst b) && zz_eqb (snd a) (snd b).
 Definition map_plan_eqb (a b : map_plan) : bool :=
